@@ -1,4 +1,5 @@
 import CM.Proofs.Stream
+import CM.Proofs.BlocksWell
 /-
 C08 — streaming parse equals in-memory parse under ANY read schedule and any reader fault.
 `Model.nextBlock` / `drain` are parse.go's `NextBlock` called until it reports an error, over a scripted reader
@@ -64,6 +65,38 @@ theorem stream_roots_eq {L : LineParserI} (W : LPWell L) (x : Bytes) (sched : Li
 theorem drain_fuel_irrelevant (L : LineParserI) (f : Nat) (p : BP) (acc : List Root) (h : drainEnds L f p = true)
     (f' : Nat) (hf : f ≤ f') : drain L f' p acc = drain L f p acc :=
   drain_more_fuel L f p acc h f' hf
+
+/-! ### The real block parser: no hypothesis on the line parser left -/
+
+/-- `Model.blocksLP` — the Lean model of the block-phase line parser of blocks.go, tied to the code by the `blocks`
+    correspondence op — meets the (source-indexed) contract `LPWellS`: the invariant "the root is the open document block; all
+    children but the last are closed; closed ends are sorted and inside the bytes given; an open last paragraph has sorted,
+    valid inline spans …" holds after every line, the end-of-input line closes everything, and the link reference
+    definitions split off a paragraph end in increasing order inside it. (The simpler `LPWell` above is proved
+    unsatisfiable by any real parser, `blocksLP_not_well`: it quantifies over sources the machine never feeds.) -/
+def blocksLP_meets_contract (x : PExt) : LPWellS (blocksLP x) := blocksLP_wellS x
+
+/-- (A) for the model of the real parser, unconditionally: every input below the block-size limit, every schedule. -/
+theorem C08_blocks (x : PExt) (inp : Bytes) (sched : List Nat) (eofWith : Bool) (hsmall : Small inp) (f : Nat) :
+    observe (drain (blocksLP x) f (newBlockParser { data := inp, sched := sched, eofWith := eofWith, fin := .eof }) []) =
+    observe (drain (blocksLP x) f (memParser inp) []) :=
+  Proofs.C08_blocks x inp sched eofWith hsmall f
+
+/-- (B) for the model of the real parser. -/
+theorem C08_blocks_fault (x : PExt) (inp : Bytes) (sched : List Nat) (eofWith : Bool) (code : Nat) (hsmall : Small inp) (f : Nat) :
+    (observe (drain (blocksLP x) f (newBlockParser { data := inp, sched := sched, eofWith := eofWith, fin := .fail code }) [])).1 =
+      (observe (drain (blocksLP x) f (memParser inp) [])).1 ∧
+    ((∃ m, (observe (drain (blocksLP x) f (newBlockParser { data := inp, sched := sched, eofWith := eofWith, fin := .fail code }) [])).2 = .panic m ∧
+        (observe (drain (blocksLP x) f (memParser inp) [])).2 = .panic m) ∨
+     ((observe (drain (blocksLP x) f (newBlockParser { data := inp, sched := sched, eofWith := eofWith, fin := .fail code }) [])).2 = .err (.reader code) ∧
+        (observe (drain (blocksLP x) f (memParser inp) [])).2 = .err .eof)) :=
+  Proofs.C08_blocks_fault x inp sched eofWith code hsmall f
+
+/-- (D) for the model of the real parser, any final reader error. -/
+theorem C08_blocks_roots (x : PExt) (inp : Bytes) (sched : List Nat) (eofWith : Bool) (fin : RErr) (hsmall : Small inp) (f : Nat) :
+    (drain (blocksLP x) f (newBlockParser { data := inp, sched := sched, eofWith := eofWith, fin := fin }) []).1 =
+    (drain (blocksLP x) f (memParser inp) []).1 :=
+  Proofs.C08_blocks_roots x inp sched eofWith fin hsmall f
 
 -- Non-vacuity: `LPWell` is satisfiable (a toy paragraph parser), and the theorem applies to a run with a CRLF split
 -- across reads, a NUL, an empty read and end of input delivered with the last data.
